@@ -395,6 +395,7 @@ type c01Flags struct {
 	IgnoreTerm       bool // feature ElasticQuotaImmediateIgnoreTerminatingPod
 	ScaleMin         bool
 	NoReparentOver   bool // exclusion pass: never re-parent/delete a quota whose own request exceeds its max
+	Interleave       bool // (migrate-race unit, implies Parked) one pod event is delivered between the migrate cycle's snapshot and its per-pod step
 	Parked           bool // (parked-reserve unit) Reserve/Unreserve are also issued for a pod still parked in the default quota although its own quota exists
 }
 
@@ -426,6 +427,7 @@ type c01World struct {
 	sawReparentLoad, sawDeleteLoad, sawOverMax, sawMinRaise, sawMigrate, sawTerminating, sawReset   bool
 	sawCrossQuota, sawResize, sawUnreserve, sawParentPods, sawFallback, sawDirtyDelete, sawRootDiff bool
 	sawReserveParked, sawReserveMisrouted, sawUnreserveMisrouted                                    bool
+	sawWindowMoved, sawWindowDeleted, sawWindowChanged, sawWindowMigrated                           bool
 	excludedMoves                                                                                   int
 }
 
@@ -589,6 +591,8 @@ type c01Family struct {
 func c01AnySymptom(string, string, string) bool { return true }
 
 const (
+	c01SigMigrateGone  = "migrateCycle:pod-left-default-quota-between-snapshot-and-migrate"
+	c01SigMigrateStale = "migrateCycle:pod-updated-between-snapshot-and-migrate"
 	c01SigMisrouted    = "default-fallback:pod-event-misses-pod-still-counted-in-default-quota"
 	c01SigStaleCache   = "migrateCycle:cached-pod-object-stale"
 	c01SigReparentOver = "quotaReparent:old-ancestors-request-undercounted:moved-quota-request-over-max"
@@ -790,6 +794,11 @@ type c01Driver interface {
 	// MigrateCycle runs the periodic default->quota migration; route is the model's routing function (used by the
 	// core driver only, which restates the plugin's loop).
 	MigrateCycle(route func(label string) string)
+	// The migrate cycle in its two steps, so that another event can be delivered in between, as the scheduling cycle and
+	// the informer do while the plugin's migration goroutine walks its snapshot: MigrateSnapshot is the copy of the
+	// default quota's pod cache the loop iterates over, MigrateOne the loop body for one pod of that snapshot.
+	MigrateSnapshot() map[string]*corev1.Pod
+	MigrateOne(pod *corev1.Pod, route func(label string) string)
 	NodeAdd(n *corev1.Node)
 	NodeUpdate(old, n *corev1.Node)
 	NodeDelete(n *corev1.Node)
@@ -1372,6 +1381,88 @@ func (w *c01World) opMigrate(t *rapid.T) {
 	w.log("migrateCycle (model moves %v; pods that left the default quota=%d; a cached pod object was stale=%v)", movedModel, n, stale)
 }
 
+// opMigrateInterleaved is the migrate cycle with the other goroutines in the picture: the plugin's loop works on a
+// snapshot of the default quota's pod cache and takes the manager's lock only per pod, so a Reserve/Unreserve (scheduling
+// cycle) or a pod update/delete (informer) can be processed between the snapshot and the pod's own migrate step. The
+// harness owns the interleaving: snapshot, then for every pod of it optionally one generated event on a snapshot pod,
+// then that pod's migrate step. Model: a pod moves iff it is, at that moment, still counted in the default quota and the
+// label of its last delivered object names an existing quota.
+func (w *c01World) opMigrateInterleaved(t *rapid.T) {
+	w.begin("migrateCycle")
+	snap := w.drv.MigrateSnapshot()
+	names := map[string]*corev1.Pod{}
+	for _, key := range vk.SortedKeys(snap) {
+		names[snap[key].Name] = snap[key]
+	}
+	w.log("migrateCycle: snapshot of the default quota's pods %v", vk.SortedKeys(names))
+	for _, name := range vk.SortedKeys(names) {
+		if w.dead {
+			return
+		}
+		if rapid.Bool().Draw(t, "eventInWindow") {
+			var alive []string
+			for _, n := range vk.SortedKeys(names) {
+				if _, ok := w.pods[n]; ok {
+					alive = append(alive, n)
+				}
+			}
+			if len(alive) > 0 {
+				target := name
+				if _, ok := w.pods[name]; !ok || rapid.IntRange(0, 3).Draw(t, "otherPod") == 0 {
+					target = rapid.SampledFrom(alive).Draw(t, "windowPod")
+				}
+				p := w.pods[target]
+				menu := []string{"update", "update", "delete"}
+				if p.In != "" && !p.Assigned {
+					menu = append(menu, "reserve", "reserve", "reserve")
+				}
+				if p.In != "" && p.Assigned && p.Spec.Node == "" {
+					menu = append(menu, "unreserve")
+				}
+				switch rapid.SampledFrom(menu).Draw(t, "windowOp") {
+				case "update":
+					w.podUpdate(t, target)
+				case "delete":
+					w.podDelete(t, target)
+				case "reserve":
+					w.reserve(target)
+				case "unreserve":
+					w.unreserve(target)
+				}
+				w.check(t)
+				if w.dead {
+					return
+				}
+			}
+		}
+		pod := names[name]
+		w.begin("migrateCycle")
+		mp := w.pods[name]
+		switch {
+		case mp == nil:
+			w.sawWindowDeleted = true
+			w.family = &c01Family{c01SigMigrateGone, c01AnySymptom}
+			w.log("migrateCycle: step for %s (deleted since the snapshot)", name)
+		case mp.In != extension.DefaultQuotaName:
+			w.sawWindowMoved = true
+			w.family = &c01Family{c01SigMigrateGone, c01AnySymptom}
+			w.log("migrateCycle: step for %s (moved to %q since the snapshot)", name, mp.In)
+		default:
+			if mp.Obj != pod && (mp.Spec.Label != pod.Labels[extension.LabelQuotaName] || c01PodRequestsDump(mp.Obj) != c01PodRequestsDump(pod)) {
+				w.sawWindowChanged = true
+				w.family = &c01Family{c01SigMigrateStale, c01AnySymptom}
+			}
+			if to := w.route(mp.Spec.Label); to != extension.DefaultQuotaName {
+				mp.In = to
+				w.sawMigrate, w.sawWindowMigrated = true, true
+			}
+			w.log("migrateCycle: step for %s (model: now in %q; label or requests changed since the snapshot=%v)", name, mp.In, w.family != nil)
+		}
+		w.drv.MigrateOne(pod, w.route)
+		w.check(t)
+	}
+}
+
 func (w *c01World) opNode(t *rapid.T) {
 	name := rapid.SampledFrom([]string{"n0", "n1", "n2"}).Draw(t, "node")
 	alloc := c01RL(c01Vec{c01GenAmount(t, 0, "nodeCPU"), c01GenAmount(t, 1, "nodeMem")}, c01Both)
@@ -1432,7 +1523,11 @@ func (w *c01World) enabledOps() []c01Op {
 		add("podDelete", 2, len(w.pods) > 0, w.opPodDelete)
 		add("reserve", 8, len(w.reserveCandidates()) > 0, w.opReserve)
 		add("unreserve", 8, len(w.unreserveCandidates()) > 0, w.opUnreserve)
-		add("migrateCycle", 1, true, w.opMigrate)
+		if w.flags.Interleave {
+			add("migrateCycleInterleaved", 5, true, w.opMigrateInterleaved)
+		} else {
+			add("migrateCycle", 1, true, w.opMigrate)
+		}
 		add("resetQuota", 1, true, w.opReset)
 		return ops
 	}
@@ -1510,23 +1605,29 @@ func c01GenFlags(t *rapid.T) c01Flags {
 // ---------------------------------------------------------------- the sequential-history property
 
 func c01RunHistory(t *rapid.T, rec *vk.Rec, mk func(scaleMin bool, sysMax, defMax corev1.ResourceList) c01Driver) {
-	c01RunHistoryMode(t, rec, mk, false)
+	c01RunHistoryMode(t, rec, mk, false, false)
+}
+
+// c01RunMigrateRace: the parked-pod generator, with the migrate cycle always run in its two steps and generated events
+// delivered between the snapshot and the per-pod step (see opMigrateInterleaved).
+func c01RunMigrateRace(t *rapid.T, rec *vk.Rec, mk func(scaleMin bool, sysMax, defMax corev1.ResourceList) c01Driver) {
+	c01RunHistoryMode(t, rec, mk, true, true)
 }
 
 // c01RunParked: the same property with the generator aimed at pods that exist before their quota: they are parked in
 // the default quota, the migrate cycle is rare, and Reserve/Unreserve are issued while a pod is parked, also after its
 // own quota has appeared (the plugin then routes the call to that quota).
 func c01RunParked(t *rapid.T, rec *vk.Rec, mk func(scaleMin bool, sysMax, defMax corev1.ResourceList) c01Driver) {
-	c01RunHistoryMode(t, rec, mk, true)
+	c01RunHistoryMode(t, rec, mk, true, false)
 }
 
-func c01RunHistoryMode(t *rapid.T, rec *vk.Rec, mk func(scaleMin bool, sysMax, defMax corev1.ResourceList) c01Driver, parked bool) {
+func c01RunHistoryMode(t *rapid.T, rec *vk.Rec, mk func(scaleMin bool, sysMax, defMax corev1.ResourceList) c01Driver, parked, interleave bool) {
 	c := rec.Begin()
 	defer c.End()
 	var flags c01Flags
 	maxWarmQuotas := 4
 	if parked {
-		flags = c01Flags{Parked: true, Orphans: true,
+		flags = c01Flags{Parked: true, Orphans: true, Interleave: interleave,
 			FreezeInFallback: rapid.Bool().Draw(t, "freezeInFallback"),
 			ParentPods:       rapid.Bool().Draw(t, "parentPods"),
 			IgnoreTerm:       rapid.IntRange(0, 3).Draw(t, "ignoreTerminating") == 0,
@@ -1579,11 +1680,23 @@ func c01RunHistoryMode(t *rapid.T, rec *vk.Rec, mk func(scaleMin bool, sysMax, d
 	c.ClassIf(w.sawReserveParked, "reserve-while-parked-in-default")
 	c.ClassIf(w.sawReserveMisrouted, "reserve-while-parked-after-own-quota-appeared")
 	c.ClassIf(w.sawUnreserveMisrouted, "unreserve-while-parked-after-own-quota-appeared")
+	c.ClassIf(w.sawWindowMoved, "migrate-step-for-pod-moved-since-snapshot")
+	c.ClassIf(w.sawWindowDeleted, "migrate-step-for-pod-deleted-since-snapshot")
+	c.ClassIf(w.sawWindowChanged, "migrate-step-for-pod-updated-since-snapshot")
+	c.ClassIf(w.sawWindowMigrated, "migrate-step-moved-a-pod")
+	if cnt, ok := w.drv.(interface{ c01Counts() map[string]int }); ok {
+		for _, k := range vk.SortedKeys(cnt.c01Counts()) {
+			c.ClassIf(cnt.c01Counts()[k] > 0, k)
+		}
+	}
 	c.ClassIf(flags.IgnoreTerm, "mode:ignore-terminating")
 	c.ClassIf(len(w.hist) >= 20, "history>=20")
 	nt := w.sawReparentLoad || w.sawDeleteLoad || w.sawOverMax
 	if parked { // a reservation taken or rolled back while the pod is parked in the default quota
 		nt = w.sawReserveParked || w.sawReserveMisrouted || w.sawUnreserveMisrouted
+	}
+	if interleave { // a migrate step for a pod that was moved, deleted or updated since the snapshot
+		nt = w.sawWindowMoved || w.sawWindowDeleted || w.sawWindowChanged
 	}
 	if nt {
 		c.NonTrivial(w.hist)
@@ -1629,6 +1742,10 @@ func (d *c01RecDriver) Unreserve(route string, assumed *corev1.Pod) {
 }
 func (d *c01RecDriver) MigrateCycle(route func(string) string) {
 	d.rec(func() { d.inner.MigrateCycle(route) })
+}
+func (d *c01RecDriver) MigrateSnapshot() map[string]*corev1.Pod { return nil }
+func (d *c01RecDriver) MigrateOne(pod *corev1.Pod, route func(string) string) {
+	d.rec(func() { d.inner.MigrateOne(pod, route) })
 }
 func (d *c01RecDriver) NodeAdd(n *corev1.Node)         { d.rec(func() { d.inner.NodeAdd(n) }) }
 func (d *c01RecDriver) NodeUpdate(old, n *corev1.Node) { d.rec(func() { d.inner.NodeUpdate(old, n) }) }
